@@ -379,6 +379,13 @@ impl G {
                                 def.default = Some(p);
                             }
                         }
+                        // C11: `map` runs once per field of a container that succeeded, skipped fields included
+                        if let Some(m) = map_fn(&final_ty) {
+                            if self.rng.chance(1, 4) {
+                                attrs.push(format!("map = subjects::vf::{m}"));
+                                def.map = Some(m.into());
+                            }
+                        }
                     } else {
                         if self.rng.chance(1, 5) {
                             let lit = self.rename_lit();
